@@ -788,6 +788,26 @@ def place_face(P, placement, seed):
         lonj = math.degrees(math.atan2(Q[j, 1], Q[j, 0]))
         Q = Q @ ref.rot_z((0.0 if north else 180.0) - lonj).T
         Q[j, 1] = 0.0
+    elif placement in ("npole_inside_symmetric_lon0", "spole_inside_symmetric_lon180", "npole_inside_symmetric_lon180", "spole_inside_symmetric_lon0"):
+        # pole strictly inside; corners mirror-symmetric about the meridian through one corner, and the widest gap between corner
+        # longitudes is the one OPPOSITE that corner (so the corner sits exactly at the mean longitude of the two corners bounding
+        # the widest gap - a degenerate reference meridian for ray casting).  All corners at one colatitude: always convex.
+        rad = float(ref.angle(c, P[0]))
+        kk = k if k % 2 == 1 else k + 1
+        h = (kk - 1) // 2
+        amax = float(rng.uniform(95.0, 118.0 if h == 1 else 125.0))
+        offs = np.sort(rng.uniform(0.25, 0.75, size=h - 1) * amax) if h > 1 else np.array([])
+        offs = np.concatenate([offs, [amax]])
+        x = np.sin(rad) * np.cos(np.deg2rad(offs))
+        y = np.sin(rad) * np.sin(np.deg2rad(offs))
+        z = np.full(h, math.cos(rad))
+        ring = [(math.sin(rad), 0.0, math.cos(rad))] + [(x[i], y[i], z[i]) for i in range(h)] + [(x[i], -y[i], z[i]) for i in range(h - 1, -1, -1)]
+        Q = np.array(ring)
+        if placement.endswith("lon180"):
+            Q = Q * np.array([-1.0, -1.0, 1.0])  # exact half turn about the polar axis
+        if placement.startswith("spole"):
+            Q = (Q * np.array([1.0, 1.0, -1.0]))[::-1]  # mirror to the south, keep counter-clockwise
+        return Q / np.linalg.norm(Q, axis=1, keepdims=True)
     elif placement == "across_180":
         Q = to(ll(180.0 + float(rng.uniform(-0.3, 0.3)) * math.degrees(float(ref.angle(c, P[0]))), float(rng.uniform(-60, 60))))
     elif placement == "across_0":
@@ -809,4 +829,5 @@ def place_face(P, placement, seed):
 
 
 FACE_PLACEMENTS = ["generic", "npole_inside", "spole_inside", "corner_npole", "corner_spole", "across_180", "across_0",
-                   "origin_inside", "near_npole", "near_spole", "equator", "npole_inside_corner_lon0", "spole_inside_corner_lon180"]
+                   "origin_inside", "near_npole", "near_spole", "equator", "npole_inside_corner_lon0", "spole_inside_corner_lon180",
+                   "npole_inside_symmetric_lon0", "spole_inside_symmetric_lon180", "npole_inside_symmetric_lon180", "spole_inside_symmetric_lon0"]
